@@ -194,6 +194,29 @@ def judge (conf : Conf) (evs obs : List String) : J := Id.run do
               if (j.created.find? (·.1 == (key, name, t))).isNone then j := { j with created := ((key, name, t), j.idx) :: j.created }
             | _, _ => pure ()
           | none => pure ()
+        -- "removed by a local update ⇒ no longer shown" (first sentence of the property), judged on the updating node
+        -- itself: an entry the node showed before the update and that is absent from the update's result (the LAST op
+        -- naming it is a removal; replace-in-one-CAS writes `rm:x+hb:z` included), update acknowledged: afterwards the
+        -- node holds a tombstone for it — not the live entry, and not nothing (a fresh tombstone is never older than
+        -- the retention); the tombstone then goes through the forwarding rule below
+        if res == "ok" ∧ !conf.skew then
+          let nameOf : Op → Option (String × Bool) := fun op => match op with
+            | .rm id => some ("i:" ++ id, true)
+            | .pr pid => some (s!"p:{pid}", true)
+            | .orm oid => some ("o:" ++ oid, true)
+            | .hb id _ _ _ => some ("i:" ++ id, false)
+            | .pa pid _ _ => some (s!"p:{pid}", false)
+            | .oa oid _ _ _ => some ("o:" ++ oid, false)
+            | _ => none
+          let named := ((ops.splitOn "+").filterMap parseOp).filterMap nameOf
+          for (name, isRm) in named do
+            if isRm ∧ ((named.filter (·.1 == name)).getLast?.map (·.2)) == some true then
+              let before := match getE (prevStore j n) key with | some e => findEnt (ents e.val) name | none => none
+              let after := match getE sn.store key with | some e => findEnt (ents e.val) name | none => none
+              match before, after with
+              | some (_, false), some (_, false) => j := j.flag s!"still-shown-after-removal-by-local-update:{key}/{name}"
+              | some (_, false), none => j := j.flag s!"removal-by-local-update-left-no-tombstone:{key}/{name}"
+              | _, _ => pure ()
         -- tombstones this local update created must be forwarded (checked at the node's next gossip)
         if res == "ok" then
           let before := match getE (prevStore j n) key with | some e => ents e.val | none => []
